@@ -137,10 +137,49 @@ class IdxStr(Sym):
                 raise PyRaise('IndexError')
         raise Unsupported('symbolic index into an index string')
 
+    @staticmethod
+    def chars_of(x):
+        """the characters of a str-like value of concrete length, or None"""
+        if isinstance(x, IdxStr):
+            return x.chars
+        if isinstance(x, str):
+            return tuple(x)
+        if hasattr(x, 'as_idx_chars'):
+            return tuple(x.as_idx_chars())
+        return None
+
     def binop(self, ctx, op, other, reflected):
-        if op == '+' and isinstance(other, IdxStr):
-            return IdxStr(other.chars + self.chars if reflected else self.chars + other.chars)
+        o = IdxStr.chars_of(other) if op == '+' else None
+        if o is not None:
+            return IdxStr(o + self.chars if reflected else self.chars + o)
         return NotImplemented
+
+    def compare(self, ctx, op, other, reflected):
+        # str equality: same length and equal characters
+        o = IdxStr.chars_of(other) if op in ('==', '!=') else None
+        if o is None:
+            return NotImplemented
+        if len(o) != len(self.chars):
+            return op == '!='
+        parts = [_eq(ctx, a, b) for a, b in zip(self.chars, o)]
+        if any(p is False for p in parts):
+            return op == '!='
+        parts = [zbool(p) for p in parts if p is not True]
+        e = z3.And(*parts) if parts else z3.BoolVal(True)
+        return SBool(e if op == '==' else z3.Not(e))
+
+    @staticmethod
+    def join(ctx, sep, items):
+        """sep.join(items) for an empty separator and str-like items of concrete length"""
+        if sep != '':
+            raise Unsupported('str.join with a non-empty separator over symbolic strings')
+        out = ()
+        for x in items:
+            c = IdxStr.chars_of(x)
+            if c is None:
+                raise Unsupported('str.join over %r' % (x,))
+            out += c
+        return IdxStr(out)
 
     def contains(self, ctx, x):
         return SmallSet(self.chars).contains(ctx, x)
